@@ -65,7 +65,8 @@ theorem sort_is_sorted (U : Universe) (vs : Nat) : RankSorted U (rankSort U (U.c
 
 /-- (c) answers do not depend on the cache state: a repeated query returns identical contents. -/
 theorem answer_state_independent (U : Universe) (peek peek' : Bool) (st st' : St) (op : Op)
-    (hop : ∀ s, op ≠ .available s ∧ op ≠ .depsStart s ∧ op ≠ .depsDrop s ∧ op ≠ .depsFinish s) :
+    (hop : ∀ s, op ≠ .available s ∧ op ≠ .depsStart s ∧ op ≠ .depsDrop s ∧ op ≠ .depsFinish s)
+    (hop' : ∀ n k, op ≠ .candStart n k ∧ op ≠ .candDrop k ∧ op ≠ .candOpen n ∧ op ≠ .candPoll k) :
     (step U peek st op).2 = (step U peek' st' op).2 := by
   cases op with
   | candidates n => rfl
@@ -80,6 +81,10 @@ theorem answer_state_independent (U : Universe) (peek peek' : Bool) (st st' : St
   | depsStart s => exact absurd rfl (hop s).2.1
   | depsDrop s => exact absurd rfl (hop s).2.2.1
   | depsFinish s => exact absurd rfl (hop s).2.2.2
+  | candStart n k => exact absurd rfl (hop' n k).1
+  | candDrop k => exact absurd rfl (hop' 0 k).2.1
+  | candOpen n => exact absurd rfl (hop' n 0).2.2.1
+  | candPoll k => exact absurd rfl (hop' 0 k).2.2.2
 
 theorem fetchCands_idem (U : Universe) (st : St) (n : Nat) :
     fetchCands U (fetchCands U st n) n = fetchCands U st n := by
@@ -124,5 +129,41 @@ theorem inflight_not_available (U : Universe) (peek : Bool) (st : St) (s t : Nat
     · split <;> rfl
   · simp only [step]
     split <;> rfl
+
+/-- **Concurrent requests for one package share one provider call.** While a request for the candidates of `n` is in
+    flight (a future that sent it is alive), a further `get_or_cache_candidates(n)` does not consult the provider (the
+    call log is unchanged) and does not touch the marker … -/
+theorem waiter_no_call (U : Universe) (peek : Bool) (st : St) (n k : Nat) (h : st.marker n = true) :
+    (step U peek st (.candStart n k)).1.log = st.log ∧ (step U peek st (.candStart n k)).1.marker n = true := by
+  simp only [step]
+  split
+  · exact ⟨rfl, h⟩
+  · split
+    · exact ⟨rfl, h⟩
+    · unfold candEnter
+      rw [if_pos h]
+      refine ⟨rfl, ?_⟩
+      unfold St.marker at h ⊢
+      simp only [List.any_append, h, Bool.true_or]
+
+theorem filter_keeps_owner (slots : List (Nat × Slot)) (k : Nat) (n : Nat)
+    (h : ∃ p ∈ slots, p.1 ≠ k ∧ p.2.isOwnerOf n = true) : (slots.filter (·.1 != k)).any (fun p => p.2.isOwnerOf n) = true := by
+  obtain ⟨p, hp, hk, ho⟩ := h
+  exact List.any_eq_true.mpr ⟨p, List.mem_filter.mpr ⟨hp, by simpa using hk⟩, ho⟩
+
+/-- … and abandoning a future that merely *waits* leaves the marker of the request it waited for in place and makes no
+    provider call: the request stays the only one (a dropped waiter must not clear the way for a second request). -/
+theorem drop_waiter_keeps_request (U : Universe) (peek : Bool) (st : St) (k m : Nat) (b : Bool) (n : Nat)
+    (hk : st.slots.lookup k = some (.waiter m b)) (h : ∃ p ∈ st.slots, p.1 ≠ k ∧ p.2.isOwnerOf n = true) :
+    (step U peek st (.candDrop k)).1.log = st.log ∧ (step U peek st (.candDrop k)).1.marker n = true := by
+  have hs : step U peek st (.candDrop k) = ({ st with slots := st.slots.filter (·.1 != k) }, .word "dropped") := by
+    simp only [step, hk]
+  rw [hs]
+  exact ⟨rfl, filter_keeps_owner st.slots k n h⟩
+
+/-- the hypotheses of the two theorems are met by a state with one request in flight and one future waiting for it -/
+example : let st : St := { slots := [(0, .owner 5 false), (1, .waiter 5 false)] }
+    st.marker 5 = true ∧ st.slots.lookup 1 = some (.waiter 5 false) ∧ ∃ p ∈ st.slots, p.1 ≠ 1 ∧ p.2.isOwnerOf 5 = true := by
+  refine ⟨by decide, by decide, (0, .owner 5 false), by simp, by decide, by decide⟩
 
 end Resolvo.C20
